@@ -587,6 +587,8 @@ FIXED = RAW_F_CASES + [
     "s = \"\"\"a\\\"\"\" \"\"\"\n", "s = 'a\\\\'\nt = 1\n", "x=\"\"\"a\"\"\"\"b\"\n", "(\n", ")\nx\n", "x = ')'\n", "'''\n", "f(\n'''\n)'''\n)\n", "x = 1 ;\n",
     "\x0cx = 1\n", "x = 1\n\x0c\ny = 2\n", "x = a . b\n", "x = a.\\\n  b\n", "lambda: (yield)\n",
     # a keyword right after a dot (rope 2b4039e: _follows_dot): valid shapes first, then the invalid ones it was made for
+    '"""Tool\n\n# Usage"""\nimport os\nx = 1\n', "def f():\n    '''Doc\n    ## Args\n    # end'''\n    return 1\ny = f()\n",
+    'HELP = r"""\n#!/bin/sh\n# run (x\n#"""\nz = HELP\nw = 2\n', "t = u'''a\n  # b\n  # c'''.strip()\nu = t\n", 'class A:\n    b"""x\n    # y"""\n    k = 1\nA.k\n',
     "m = match.group(1)\n", "type.x.y = case.a\n", "print(match, type.mro(), _ .b)\n", "x = (match).case.type\n",
     "y = b if 3. else (c).r\n", "y = 3. if c else (d).e\n", "a1.is\n", "\u0663x.is\n", "x = (a) .is\n", ".is\n",
     "from . import a\n", "from .. import b\n", "y = 1. if c else 2\n", "z = 2. or x\n", "s.is\n", "a.in.b\n", "x = s.is_x + t.import_y\n",
